@@ -243,6 +243,13 @@ def _viol(sig, msg, extra=None):
     return {"signature": sig, "message": msg, "extra": extra}
 
 
+SHIFT = np.int64(1) << np.int64(32)
+
+
+def _decode(codes):
+    return [(int(c) >> 32, int(c) & 0xFFFFFFFF) for c in codes]
+
+
 def run_one(tape, only=None):
     _T["state"].restore()      # each run models a fresh interpreter
     res = new_result()
@@ -376,8 +383,14 @@ def run_one(tape, only=None):
                 probe("spatial_only")
             else:
                 hit = valid & inwin & (dt < mi) & (D <= md)
-            exp = {(int(fp["id"][i]), int(fs["id"][j])) for i, j in np.argwhere(hit & ~border)}
-            maybe = {(int(fp["id"][i]), int(fs["id"][j])) for i, j in np.argwhere(hit & border)}
+            # pairs as int64 codes id_primary * 2^32 + id_secondary (vectorised:
+            # a large radius gives several 10^5 pairs)
+            def codes(mask):
+                ii, jj = np.nonzero(mask)
+                return np.sort(fp["id"][ii].astype(np.int64) * SHIFT
+                               + fs["id"][jj].astype(np.int64))
+            exp = codes(hit & ~border)
+            maybe = codes(hit & border)
             kw = dict(max_interval={"number": mi, "string": f"{mi} s",
                                     "timedelta": timedelta(seconds=mi)}[c["mi_as"]],
                       max_distance={"number": md, "km": f"{md!r} km",
@@ -409,61 +422,71 @@ def run_one(tape, only=None):
                 V.append(_viol(f"C04/exception/{type(e).__name__}", f"{desc}: {e}"[:500]))
                 continue
             plan.take_fired()
-            answers.append(digest_of(sorted(exp)))
-            if exp and k > 0:
+            answers.append(digest_of(exp.tolist()))
+            if exp.size and k > 0:
                 nontrivial += 1
-            if exp and len(exp) == 1 and next(iter(exp)) == (int(fp["id"][0]), int(fs["id"][0])):
+            if exp.size == 1 and int(exp[0]) == int(fp["id"][0]) * SHIFT + int(fs["id"][0]):
                 probe("only_pair_is_first_first")
             if out is None:
                 probe("empty_answer")
-                if exp:
+                if exp.size:
                     V.append(_viol("C04/none-although-pairs-exist",
-                                   f"{desc}: None returned, {len(exp)} pair(s) expected, "
-                                   f"e.g. {sorted(exp)[:3]}"))
+                                   f"{desc}: None returned, {exp.size} pair(s) expected, "
+                                   f"e.g. {_decode(exp[:3])}"))
                 continue
             try:
                 pairs = np.asarray(out["Collocations/pairs"].values)
                 ida = np.asarray(out[f"{pn}/id"].values)
                 idb = np.asarray(out[f"{sn}/id"].values)
-                gl = [(int(ida[int(a)]), int(idb[int(b)])) for a, b in zip(pairs[0], pairs[1])]
+                pa = np.asarray(pairs[0]).astype(np.int64)
+                pb = np.asarray(pairs[1]).astype(np.int64)
+                ga, gb = ida[pa].astype(np.int64), idb[pb].astype(np.int64)
+                gl = ga * SHIFT + gb                  # in the order of the result
                 iv = np.asarray(out["Collocations/interval"].values)
                 dist = np.asarray(out["Collocations/distance"].values, dtype=float)
             except Exception as e:  # noqa
                 V.append(_viol("C04/malformed-result", f"{desc}: {type(e).__name__}: {e}"[:400]))
                 continue
-            got = set(gl)
-            if not got:
+            got = np.unique(gl)
+            if not got.size:
                 V.append(_viol("C04/empty-dataset-instead-of-none", desc))
-            if len(gl) != len(got):
+            if gl.size != got.size:
                 V.append(_viol("C04/duplicate-pairs",
-                               f"{desc}: {len(gl) - len(got)} duplicate pair(s)"))
-            missing = exp - got
-            extra = got - exp - maybe
-            if missing:
+                               f"{desc}: {gl.size - got.size} duplicate pair(s)"))
+            missing = np.setdiff1d(exp, got, assume_unique=True)
+            extra = np.setdiff1d(np.setdiff1d(got, exp, assume_unique=True), maybe,
+                                 assume_unique=True)
+            if missing.size:
                 V.append(_viol("C04/missing-pairs",
-                               f"{desc}: {len(missing)} of {len(exp)} pair(s) missing, "
-                               f"e.g. {sorted(missing)[:3]}"))
-            if extra:
+                               f"{desc}: {missing.size} of {exp.size} pair(s) missing, "
+                               f"e.g. {_decode(missing[:3])}"))
+            if extra.size:
                 V.append(_viol("C04/spurious-pairs",
-                               f"{desc}: {len(extra)} unexpected pair(s), e.g. "
-                               f"{sorted(extra)[:3]}"))
+                               f"{desc}: {extra.size} unexpected pair(s), e.g. "
+                               f"{_decode(extra[:3])}"))
             # every stored point takes part in a pair; stored interval/distance
-            if not missing and not extra and len(gl) == len(got):
-                ipos = {int(v): n for n, v in enumerate(fp["id"])}
-                jpos = {int(v): n for n, v in enumerate(fs["id"])}
-                for n_, (a, b) in enumerate(gl):
-                    i, j = ipos[a], jpos[b]
-                    sec = iv[n_] / np.timedelta64(1, "s") if iv.dtype.kind == "m" else float(iv[n_])
-                    if abs(sec - dt[i, j]) >= 1.0:
+            if not missing.size and not extra.size and gl.size == got.size:
+                op_ = np.argsort(fp["id"], kind="stable")
+                os_ = np.argsort(fs["id"], kind="stable")
+                ii = op_[np.searchsorted(fp["id"][op_], ga)]
+                jj = os_[np.searchsorted(fs["id"][os_], gb)]
+                sec = iv / np.timedelta64(1, "s") if iv.dtype.kind == "m" \
+                    else iv.astype(float)
+                bad_i = np.abs(sec - dt[ii, jj]) >= 1.0
+                bad_d = np.abs(dist - D[ii, jj]) > 1e-6 + 1e-9 * D[ii, jj]
+                first = np.nonzero(bad_i | bad_d)[0]
+                if first.size:
+                    n_ = int(first[0])
+                    a, b = int(ga[n_]), int(gb[n_])
+                    i, j = int(ii[n_]), int(jj[n_])
+                    if bad_i[n_]:
                         V.append(_viol("C04/stored-interval",
-                                       f"{desc}: pair {(a, b)} interval {sec} s, actual "
+                                       f"{desc}: pair {(a, b)} interval {sec[n_]} s, actual "
                                        f"{dt[i, j]} s"))
-                        break
-                    if abs(dist[n_] - D[i, j]) > 1e-6 + 1e-9 * D[i, j]:
+                    else:
                         V.append(_viol("C04/stored-distance",
                                        f"{desc}: pair {(a, b)} distance {dist[n_]} km, "
                                        f"actual {D[i, j]} km"))
-                        break
 
     try:
         with patched(*seams), warnings.catch_warnings():
